@@ -302,7 +302,7 @@ struct C19 : public Driver {
         { unsigned m = (unsigned)g.below(12); if (m == 0) { sc.method = ""; sc.rootName = "html"; } else if (m == 1) sc.method = "html"; else if (m == 2) sc.method = "text"; else if (m == 3) { sc.method = ""; } }   // output method: xml mostly; html, text, and the switch to html after the first element
         GenSS s0 = genStylesheet(g, sc, d0);
         SSCfg sb = sc; static const std::vector<std::string> aborts = { "message", "key", "extfn", "encoding" };
-        sb.abortKind = g.pick(aborts); sb.abortNode = d0.ids[g.below(d0.ids.size())]; sb.on = pickFeatures(g, allowed, 1, 4); if (g.chance(1, 3)) sb.on.insert("rtf-key"); if (g.chance(1, 4)) sb.on.insert("key");
+        sb.abortPlace = (int)g.below(3); sb.abortKind = g.pick(aborts); sb.abortNode = d0.ids[g.below(d0.ids.size())]; sb.on = pickFeatures(g, allowed, 1, 4); if (g.chance(1, 3)) sb.on.insert("rtf-key"); if (g.chance(1, 4)) sb.on.insert("key");
         GenSS s1 = genStylesheet(g, sb, d0);
         Json docs = Json::array(); docs.push(d0.xml); docs.push(d1.xml);
         // a not-well-formed document and a syntactically broken stylesheet: ordinary failures
